@@ -80,6 +80,7 @@ def _group_end(lines, ad):
     if not first.lstrip().startswith('{'):
         return None
     depth_closed = False
+    balance = 0
     j = k
     while j < len(lines):
         l = lines[j]
@@ -93,8 +94,10 @@ def _group_end(lines, ad):
         if depth_closed and _line_addr(l) is not None:
             return _line_addr(l)
         text = l.partition(' ; ')[2] if _line_addr(l) is not None else l.lstrip()[1:]
-        if not depth_closed and text.rstrip().endswith('}'):
-            depth_closed = True
+        if not depth_closed:
+            balance += text.count('{') - text.count('}')
+        if not depth_closed and text.rstrip().endswith('}') and balance <= 0:
+            depth_closed = True          # braces inside the comment text ('{the {x} ...}') do not close the group
         elif depth_closed and _line_addr(l) is None:
             return None          # a comment line (mid-block comment) follows the group: it has a directive of its own
         j += 1
